@@ -142,6 +142,99 @@ def step {α} (sz : α → Nat) (s : Store α) : Op α → Option (Store α × O
                    store := s.store.filter (fun p => !decide (p.1.1 = sess)) }, .ok)
   | .maxBytes => some (s, .num s.maxBytes)
 
+/-! ### The `After` iterator as a value
+
+`After` itself does nothing; the function it returns first runs `copyData` — ONE critical section under
+`s.mu` that clones what the stream retains after the index (`slices.Clone`, structural fact
+`eventstore.after_snapshot`) or picks the error to yield — and then delivers from that private value
+outside the lock.  So an iteration is a value `Iter` (snapshot list + optional error) fixed at its start,
+and a delivery that is a function of that value, of the consumer (where it breaks) and of the context
+(from which item on it is done) alone. -/
+
+inductive IterErr where
+  | purged
+  | unknown
+deriving DecidableEq, Repr
+
+/-- What `copyData` returns: the private snapshot, or the error the iterator yields (and stops). -/
+structure Iter (α : Type) where
+  snap : List α
+  err : Option IterErr
+deriving Repr
+
+def iterOfOut {α} : Out α → Iter α
+  | .items l => ⟨l, none⟩
+  | .purged => ⟨[], some .purged⟩
+  | .unknown => ⟨[], some .unknown⟩
+  | _ => ⟨[], none⟩
+
+/-- `copyData` of `After(k, i)` on the state `s`. -/
+def afterIter {α} (s : Store α) (k : Key) (i : Int) : Iter α :=
+  match find k s.store with
+  | none => ⟨[], some .unknown⟩
+  | some dl => iterOfOut (afterOut dl i)
+
+/-- How an iteration ended, as its consumer sees it. -/
+inductive Term where
+  /-- the iterator returned and no error was yielded: "that was everything" -/
+  | fin
+  /-- the consumer broke out of the loop -/
+  | broke
+  /-- the error yielded: `ErrEventsPurged`, unknown session/stream, the context's error, any other -/
+  | purged
+  | unknown
+  | ctx
+  | error
+  /-- the iterator yielded again after an error -/
+  | goesOn
+  /-- the iterator delivers while holding the store's lock -/
+  | locked
+deriving DecidableEq, Repr
+
+/-- What an implementation of the iterator does with a context that is done. `ignore` is the code as it
+is (the parameter is `_`: structural fact `eventstore.after_ctx_unused`); `report` yields the context's
+error before `copyData` and before each item; `silent` just returns (seeded change C20-m12). -/
+inductive CtxPolicy where
+  | ignore
+  | report
+  | silent
+deriving DecidableEq, Repr
+
+/-- Delivery to a consumer that breaks in the body of the `stop`-th item (`none`: never) with no context
+in play: the whole snapshot, or its first `stop` items. -/
+def deliverPlain {α} (snap : List α) (stop : Option Nat) : Term × List α :=
+  match stop with
+  | none => (.fin, snap)
+  | some n => if 1 ≤ n ∧ n ≤ snap.length then (.broke, snap.take n) else (.fin, snap)
+
+/-- The consumer has broken out by the body of the `c`-th item. -/
+def breaksBy (stop : Option Nat) (c : Nat) : Bool :=
+  match stop with
+  | some n => decide (1 ≤ n ∧ n ≤ c)
+  | none => false
+
+/-- **The iteration.** The context is done from the body of the `cancel`-th item on (`some 0`: before
+the call; `none`: never).  A context-honouring iterator (`report`, `silent`) looks at the context before
+`copyData` and before each yield. -/
+def deliver {α} (pol : CtxPolicy) (it : Iter α) (stop cancel : Option Nat) : Term × List α :=
+  let plain : Term × List α :=
+    match it.err with
+    | some .purged => (.purged, [])
+    | some .unknown => (.unknown, [])
+    | none => deliverPlain it.snap stop
+  match pol, cancel with
+  | .ignore, _ => plain
+  | _, none => plain
+  | pol, some c =>
+    if c = 0 then (if pol = .report then (.ctx, []) else (.fin, []))
+    else match it.err with
+      | some _ => plain
+      | none =>
+        -- the consumer breaks first, or the snapshot ends first: the context is never looked at again
+        if c < it.snap.length ∧ breaksBy stop c = false then
+          (if pol = .report then (.ctx, it.snap.take c) else (.fin, it.snap.take c))
+        else plain
+
 /-- Run a whole history; `none` as soon as a step panics. Outputs are collected oldest first. -/
 def run {α} (sz : α → Nat) : Store α → List (Op α) → Option (Store α × List (Out α))
   | s, [] => some (s, [])
